@@ -591,7 +591,14 @@ class ExprMixin:
             if isinstance(ty, TRec) and getattr(ty, "dictlike", False):
                 return True  # dicts modelled this way (stat results, decoded rows) are never empty
             if isinstance(ty, (TRec, TRef)):
-                m = self.find_method_for_type(ty, "__bool__") or self.find_method_for_type(ty, "__len__")
+                m = self.find_method_for_type(ty, "__bool__")
+                if m is None:
+                    # __bool__ inherited from an external base takes precedence over a __len__ defined in the repository;
+                    # whether the external base defines it is declared by the presence of an (assumed) contract for it
+                    ext = self._extern_dunder(ty, "__bool__")
+                    if ext is not None:
+                        return self.truth(self.call_extern(ext, [v], {}, None, None))
+                    m = self.find_method_for_type(ty, "__len__")
                 if m is None:
                     return True
                 r = self.call_function(m[0], [v], {}, None, cls=m[1])
@@ -601,6 +608,18 @@ class ExprMixin:
             if isinstance(ty, TFn):
                 return True
         raise Unsupported(f"truth value of {v!r}")
+
+    def _extern_dunder(self, ty, name):
+        from .source import ClassDef, Extern
+
+        qn = getattr(ty, "qualname", None)
+        cdef = self.repo.lookup(qn) if qn else None
+        if not isinstance(cdef, ClassDef):
+            return None
+        m = self.repo.find_method(cdef, name)
+        if isinstance(m, Extern) and self.reg.get("ext:" + m.dotted) is not None:
+            return "ext:" + m.dotted
+        return None
 
     # ---------------- attribute / subscript ----------------
     def ev_Attribute(self, e):
